@@ -102,6 +102,9 @@ type scenario struct {
 	// ForeignReconciled: the XR controller reconciled the pre-existing XR before the history starts.
 	ForeignReconciled bool `json:"foreignReconciled,omitempty"`
 	Composed          int  `json:"composed"` // templates in the composition (0 or 1)
+	// Taken: the first n names the name generator will draw for our claim already belong to XRs bound
+	// to a same-named claim in another namespace (a collision forced by seeding util/rand, not luck).
+	Taken int `json:"taken,omitempty"`
 }
 
 func (sc scenario) config() string {
@@ -162,6 +165,7 @@ func genScenario() *rapid.Generator[scenario] {
 			sc.ForeignReconciled = rapid.Bool().Draw(t, "foreignReconciled")
 		}
 		sc.Composed = rapid.IntRange(0, 1).Draw(t, "composed")
+		sc.Taken = rapid.SampledFrom([]int{0, 0, 1, 2}).Draw(t, "taken")
 		return sc
 	})
 }
@@ -179,6 +183,9 @@ var faultKinds = []verifsim.Fault{
 	{Kind: verifsim.ErrAfter, Err: "timeout"},
 	{Kind: verifsim.CrashBefore},
 	{Kind: verifsim.CrashAfter},
+	// What a client's REST mapper returns while discovery lags: the call has no effect. For a lookup this
+	// is an error CLASS distinct from NotFound; only NotFound may be read as "the name is free".
+	{Kind: verifsim.ErrBefore, Err: "nomatch"},
 }
 
 // step is one step of a history.
@@ -311,9 +318,10 @@ type world struct {
 	fail   func(format string, a ...any)
 
 	// facts about the most recent claim reconcile (for the non-triviality rule)
-	lastStaleRef bool // the observed claim version's resourceRef differs from the stored one
-	lastLag      int  // effective lag of the run's FIRST claim read
-	lastReads    int  // claim reads of the run
+	lastStaleRef bool     // the observed claim version's resourceRef differs from the stored one
+	lastLag      int      // effective lag of the run's FIRST claim read
+	lastReads    int      // claim reads of the run
+	taken        []string // names squatted by XRs bound to a same-named claim in another namespace
 	// catch is the catch-up policy of the NEXT claim reconcile (consumed by it).
 	catch catchUp
 }
@@ -436,8 +444,58 @@ func newWorld(sc scenario, fail func(string, ...any)) *world {
 		panic(err)
 	}
 	w.check("setup")
+	w.takeCandidates(sc.Seed + 1)
 	return w
 }
+
+// takenNS is the namespace of the same-named claim that owns the XRs squatting on generated names.
+const takenNS = "ns-taken"
+
+// takeCandidates seeds util/rand, learns the first sc.Taken names the API-server name generator
+// (names.SimpleNameGenerator: base + utilrand.String(5)) will draw for our claim from that seed,
+// pre-creates an XR under each of them bound to the same-named claim in another namespace, and
+// re-seeds, so that the next name generation runs into them. (TestVerifC06PinnedCandidateTaken
+// verifies that the reconcile really looks these names up.)
+func (w *world) takeCandidates(seed int64) {
+	utilrand.Seed(seed)
+	var names []string
+	for i := 0; i < w.sc.Taken; i++ {
+		names = append(names, w.sc.Claim.Name+"-"+utilrand.String(5))
+	}
+	user := w.sim.Client("user")
+	for _, n := range names {
+		if w.sim.Get(w.env.XRKey(n)) != nil {
+			continue
+		}
+		xr := verifenv.NewUnstructuredXR(verifenv.XRGVKDefault, n)
+		xr.SetLabels(map[string]string{labelClaimName: w.sc.Claim.Name, labelClaimNS: takenNS})
+		xr.Object["spec"] = map[string]any{
+			"claimRef":       map[string]any{"apiVersion": claimGroup + "/v1", "kind": claimKind, "namespace": takenNS, "name": w.sc.Claim.Name},
+			"compositionRef": map[string]any{"name": "comp"},
+			"params":         map[string]any{"p0": "taken"},
+		}
+		if err := user.Create(context.Background(), xr); err != nil {
+			panic(err)
+		}
+		w.taken = append(w.taken, n)
+	}
+	utilrand.Seed(seed)
+}
+
+// lookedUpTaken reports whether call k of the run is a Get of a name squatted by a foreign XR.
+func (w *world) lookedUpTaken(run *verifsim.Run, k int) bool {
+	if k >= len(run.Calls) {
+		return false
+	}
+	for _, n := range w.taken {
+		if run.Calls[k] == "get "+w.env.XRKey(n).String() {
+			return true
+		}
+	}
+	return false
+}
+
+func sweepSeed(sc scenario, stage string) int64 { return sc.Seed + int64(len(stage))*7919 }
 
 var extNames = extv1.CustomResourceDefinitionNames{Kind: claimKind, Plural: "things"}
 
@@ -869,7 +927,7 @@ func (w *world) prefix(stage string) {
 // TestVerifC06Sweep: for a generated scenario and stage, every API call index of the next claim
 // reconcile is hit with every fault kind, followed by fault-free rounds.
 func TestVerifC06Sweep(t *testing.T) {
-	rec := verifkit.New(t, "C06", "scenario = claim content x pre-existing XR class {none, bound to another claim (organic/dangling; differs in name/namespace/both/kind), unbound; referenced or bystander} x syncer {csa, ssa, csa->ssa upgrade} x stage {fresh, bound, steady, edited, deleting}; the next claim reconcile (claim read lagging 0..n writes; the lag is constant during the reconcile, or only the first k claim reads lag, or it decays by one per read) is swept over every API call index x {conflict, 500, lost reply, crash-before, crash-after}, then fault-free rounds (first one possibly stale) with the real XR reconciler; non-trivial = fault after-effect (crash-after/lost reply) on the claim Update that records resourceRef, or a claim read that lags a write of resourceRef, or the claim references an XR bound to another claim")
+	rec := verifkit.New(t, "C06", "scenario = claim content x pre-existing XR class {none, bound to another claim (organic/dangling; differs in name/namespace/both/kind), unbound; referenced or bystander} x {0-2 of the names the generator will draw are already XRs of a same-named claim in another namespace} x syncer {csa, ssa, csa->ssa upgrade} x stage {fresh, bound, steady, edited, deleting}; the next claim reconcile (claim read lagging 0..n writes; the lag is constant during the reconcile, or only the first k claim reads lag, or it decays by one per read) is swept over every API call index x {conflict, 500, NoMatch (discovery lag), lost reply, crash-before, crash-after}, then fault-free rounds (first one possibly stale) with the real XR reconciler; non-trivial = fault after-effect (crash-after/lost reply) on the claim Update that records resourceRef, or a claim read that lags a write of resourceRef, or the claim references an XR bound to another claim, or a generated candidate name is taken by another claim's XR")
 	rapid.Check(t, func(t *rapid.T) {
 		sc := genScenario().Draw(t, "scenario")
 		stage := rapid.SampledFrom(sweepStages).Draw(t, "stage")
@@ -886,6 +944,7 @@ func TestVerifC06Sweep(t *testing.T) {
 		if sc.Upgrade {
 			w.ssaNow = true
 		}
+		w.takeCandidates(sweepSeed(sc, stage))
 		// Once with a live claim read, once with a claim read that lags the store (if the claim has that many versions).
 		sweep(w, rec, stage, 0, catchUp{}, followLag)
 		for l := 1; l <= lag; l++ {
@@ -902,7 +961,7 @@ func sweep(w *world, rec *verifkit.Recorder, stage string, lag int, catch catchU
 	base := w.sim.Snapshot()
 	baseSt := w.st.clone()
 	baseLog := w.sim.LogLen()
-	seed := sc.Seed + int64(len(stage))*7919
+	seed := sweepSeed(sc, stage)
 	utilrand.Seed(seed)
 	w.catch = catch
 	probe, _ := w.claimReconcile(sc.Claim, nil, lag, nil)
@@ -934,6 +993,13 @@ func sweep(w *world, rec *verifkit.Recorder, stage string, lag int, catch catchU
 	w.settle(fmt.Sprintf("stage %s / fault-free probe (lag %d)", stage, lag), 3, followLag)
 	w.converged(fmt.Sprintf("stage %s / fault-free (lag %d)", stage, lag))
 	foreignRef := (sc.Pre == preForeignOrganic || sc.Pre == preForeignDangling) && sc.Referenced
+	hitTaken := false
+	for k := 0; k < K; k++ {
+		hitTaken = hitTaken || w.lookedUpTaken(probe, k)
+	}
+	if hitTaken {
+		rec.Label("sweep-candidate-taken-by-foreign-XR")
+	}
 	for k := 0; k < K; k++ {
 		for _, f := range faultKinds {
 			w.sim.Restore(base)
@@ -951,10 +1017,20 @@ func sweep(w *world, rec *verifkit.Recorder, stage string, lag int, catch catchU
 			if crashOnRef {
 				rec.Label("fault-after-claim-Update-of-resourceRef")
 			}
-			if crashOnRef || staleRef || foreignRef {
+			if f.Err == "nomatch" && strings.HasPrefix(callName(probe, k), "get ") {
+				switch {
+				case w.lookedUpTaken(probe, k):
+					rec.Label("lookup-fault-nomatch/on-candidate-taken-by-foreign-XR")
+				case strings.Contains(callName(probe, k), "/"+xrKind+"/"):
+					rec.Label("lookup-fault-nomatch/on-XR-get")
+				default:
+					rec.Label("lookup-fault-nomatch/on-claim-get")
+				}
+			}
+			if crashOnRef || staleRef || foreignRef || hitTaken {
 				rec.NonTrivial(fmt.Sprintf("%s|%s|%d|%d|%d|%v", verifkit.JSON(sc), stage, lag, followLag, k, f)+catch.String(), func() any {
 					return map[string]any{"scenario": sc, "stage": stage, "lag": lag, "catch_up": catch.String(), "fault": f.Kind.String(), "err": f.Err, "call_index": k, "call": callName(probe, k), "calls_in_reconcile": K,
-						"crash_after_resourceRef_update": crashOnRef, "stale_read_lags_resourceRef": staleRef, "foreign_referenced": foreignRef}
+						"crash_after_resourceRef_update": crashOnRef, "stale_read_lags_resourceRef": staleRef, "foreign_referenced": foreignRef, "generated_candidate_taken_by_foreign_xr": hitTaken}
 				})
 			}
 		}
@@ -1009,6 +1085,17 @@ func TestVerifC06Histories(t *testing.T) {
 				}
 			}
 			w.check(ctx)
+			for k := 0; k < run.N; k++ {
+				if w.lookedUpTaken(run, k) {
+					nontrivial = true
+					rec.Label("candidate-taken-by-foreign-XR")
+					for _, f := range st.Faults {
+						if f.K == k && f.Err == "nomatch" {
+							rec.Label("lookup-fault-nomatch/on-candidate-taken-by-foreign-XR")
+						}
+					}
+				}
+			}
 			if w.lastStaleRef {
 				nontrivial = true
 				rec.Label("stale-read-lags-resourceRef-write")
@@ -1258,5 +1345,71 @@ func TestVerifC06ObservationTimeTravel(t *testing.T) {
 		_ = w.sim.TakeViolations()
 		rec.Extra("observation_"+sc.config()+"_recreates_xr_for_deleted_claim_when_cache_goes_back_in_time", fmt.Sprint(recreated))
 		t.Logf("%s: claim+XR gone=%v, XR re-created from a time-travelling cache=%v", sc.config(), gone, recreated)
+	}
+}
+
+// TestVerifC06PinnedCandidateTaken: the first names the generator draws already belong to XRs of a
+// same-named claim in another namespace. Fault-free, the generator must skip them; when the lookup
+// of such a candidate fails with ANY error class other than NotFound (here: NoMatch from a lagging
+// REST mapper, 500, conflict), the name has not been verified free and the other claim's XR must
+// not be written. Judged by the O1-O5 monitors and byte-identity only.
+func TestVerifC06PinnedCandidateTaken(t *testing.T) {
+	for _, base := range pinnedScenarios() {
+		sc := base
+		sc.Taken = 2
+		mk := func() (*world, map[string]string) {
+			w := newWorld(sc, func(f string, a ...any) { t.Fatalf(f, a...) })
+			w.ssaNow = sc.SSA
+			if len(w.taken) != 2 {
+				t.Fatalf("%s: expected two squatted names, have %v", sc.config(), w.taken)
+			}
+			d := map[string]string{}
+			for _, n := range w.taken {
+				d[n] = verifsim.ObjDigest(w.sim.Get(w.env.XRKey(n)))
+			}
+			return w, d
+		}
+		same := func(w *world, d map[string]string, ctx string) {
+			w.check(ctx)
+			for n, before := range d {
+				if after := verifsim.ObjDigest(w.sim.Get(w.env.XRKey(n))); after != before {
+					t.Fatalf("%s %s: XR %s of the other claim changed:\n before %s\n after  %s", sc.config(), ctx, n, short(before), short(after))
+				}
+			}
+		}
+		w, d := mk()
+		probe, err := w.claimReconcile(sc.Claim, nil, 0, nil)
+		if err != nil {
+			t.Fatalf("%s: %v", sc.config(), err)
+		}
+		same(w, d, "fault-free")
+		var lookups []int
+		for k := 0; k < probe.N; k++ {
+			if w.lookedUpTaken(probe, k) {
+				lookups = append(lookups, k)
+			}
+		}
+		if len(lookups) != 2 {
+			t.Fatalf("%s: the harness mispredicts the generated candidates: squatted %v, calls %v", sc.config(), w.taken, probe.Calls)
+		}
+		bound := refName(w.sim.Get(sc.Claim.key()))
+		if bound == "" || bound == w.taken[0] || bound == w.taken[1] || !refNames(w.sim.Get(w.env.XRKey(bound)), sc.Claim) {
+			t.Fatalf("%s: claim bound %q, squatted %v", sc.config(), bound, w.taken)
+		}
+		for _, k := range lookups {
+			for _, f := range []verifsim.Fault{{Kind: verifsim.ErrBefore, Err: "nomatch"}, {Kind: verifsim.ErrBefore, Err: "server"}, {Kind: verifsim.ErrBefore, Err: "conflict"}, {Kind: verifsim.ErrBefore, Err: "timeout"}} {
+				w, d := mk()
+				ctx := fmt.Sprintf("lookup of squatted candidate (call %d) fails with %s", k, f.Err)
+				_, _ = w.claimReconcile(sc.Claim, map[int]verifsim.Fault{k: f}, 0, nil)
+				same(w, d, ctx)
+				// Retries by the claim controller alone (the XR controller may legitimately write the squatted XRs).
+				for i := 0; i < 2; i++ {
+					_, _ = w.claimReconcile(sc.Claim, nil, 0, nil)
+					same(w, d, ctx+" / after retry")
+				}
+				w.settle(ctx, 2, 0)
+				w.converged(ctx)
+			}
+		}
 	}
 }
